@@ -200,7 +200,7 @@ fn methods_block(thorough: bool) -> (VioSink, Tally) {
 			}
 			ParKind::Weights => {
 				for len in [0usize, 1, 2, 3, 254, 255, 256, 257] {
-					if len as u64 > maxp + 2 {
+					if len as u64 > maxp.saturating_add(2) {
 						continue;
 					}
 					for w in [vec![1.0 as V; len], (0..len).map(|i| (i % 3) as V - 1.0).collect::<Vec<V>>(), vec![0.0 as V; len]] {
